@@ -68,6 +68,11 @@ func runC03(o *out, r *rng, thorough bool, rp string) {
 		}
 	}
 	runNetMonitors(o, r, thorough, "c03")
+	nr := 12
+	if thorough {
+		nr = 80
+	}
+	runInputsRoster(o, r, nr, "c03")
 	o.finish("From F3 Require Import GoInt QuorumGen Instance InstanceRun Table Validate ValidateRun.")
 }
 
